@@ -61,6 +61,22 @@ def gen(tier, seed):
             yield {'ell': ell, 'p1': list(p), 'p2s': [list(q) for q in pts if sph_sep(p, q) <= 178.0]}
 
 
+def gen_bands(tier, seed):
+    """two narrow bands no regular lattice resolves: (a) both end points within a degree of the equator at decade / 1-2-5 steps,
+    long lines (the geodesic there is dominated by the equatorial terms of the series); (b) end points whose longitudes
+    differ by 1e-9 .. 1e-6 deg in 1-2-5 steps (and by the 0.0001" resolution of HP notation) at any difference in latitude"""
+    ells = ['grs80', 'intl24', 'g63_280'] if tier == 'quick' else cfg.G8
+    small = [1e-6, 1e-4, 1e-3, 0.005, 0.01, 0.02, 0.03, 0.05, 0.07, 0.1, 0.3, 1.0]
+    for ell in ells:
+        for la1 in small:
+            for s1 in (1, -1):
+                yield {'ell': ell, 'p1': [s1 * la1, 0.0], 'p2s': [[s2 * la2, dl] for la2 in small for s2 in (1, -1) for dl in (30.0, 90.0, 150.0, 177.0)]}
+        dls = [1e-9, 2e-9, 5e-9, 1e-8, 1.5e-8, 2e-8, 2.5e-8, 0.0001 / 3600, 3e-8, 5e-8, 1e-7, 2e-7, 5e-7, 1e-6]
+        for la1 in (0.0, -10.0, 33.0, -48.0, 60.0, 85.0):
+            yield {'ell': ell, 'p1': [la1, 100.0], 'p2s': [[la1 + dla, 100.0 + sg * dl] for dl in dls for sg in (1, -1)
+                                                          for dla in (3e-8, -3e-8, 1e-5, 0.01, -1.0, 30.0 if la1 < 50 else -30.0)]}
+
+
 def angdiff(a, b):
     return abs((a - b + 180.0) % 360.0 - 180.0)
 
@@ -239,7 +255,7 @@ from gpmc import callforms as _cf
 from gpmc import interp as _ip
 
 
-SUBCHECKS = [Sub('inverse', gen, ev, chunk=2, floor=1000, envs=8), Sub('types', gen_types, ev_types, chunk=1, floor=100, envs=2), Sub('threads', _tg, _te, chunk=1, floor=3, poison=False, fresh=True, timeout=3600), Sub('callforms', *_cf.make('C05', 'geodesy'), chunk=1, floor=1, guard=True), Sub('interpreter', *_ip.make('C05', 'geodesy'), chunk=1, floor=5, poison=False)]
+SUBCHECKS = [Sub('inverse', gen, ev, chunk=2, floor=1000, envs=8), Sub('bands', gen_bands, ev, chunk=2, floor=500), Sub('types', gen_types, ev_types, chunk=1, floor=100, envs=2), Sub('threads', _tg, _te, chunk=1, floor=3, poison=False, fresh=True, timeout=3600), Sub('callforms', *_cf.make('C05', 'geodesy'), chunk=1, floor=1, guard=True), Sub('interpreter', *_ip.make('C05', 'geodesy'), chunk=1, floor=5, poison=False)]
 
 
 def bounds(tier, seed):
